@@ -19,6 +19,7 @@ GENERATORS = [
     ("GenFactsBuild.v", "tr_facts:generate_build"),
     ("GenFactsSession.v", "tr_facts:generate_session"),
     ("GenFactsDenoise.v", "tr_facts:generate_denoise"),
+    ("GenFactsLaunch.v", "tr_facts:generate_launch"),
     ("GenIdentity.v", "tr_identity"),
     ("GenPar.v", "tr_par"),
     ("GenUi.v", "tr_ui"),
